@@ -54,6 +54,11 @@ class P:
                         tail = rng.choice([bytes(rng.choice([1, 2, 3, 4, 5, 6, 7, 8])), one[:max(1, len(one) - 1)], one[:len(one) // 2], b""])
                         more = [g.enc_set(t.tid, g.rand_record(t)[0])] if rng.random() < 0.5 else []
                         toks += [hx(a), hx(g.enc_msg([g.enc_set(t.tid, body + tail)] + more))]
+        for a0, ts in list(tpls_by_addr.items())[:1]:
+            good = [t for t in ts if g.min_rec_len(t) > 4][:1]
+            if good:
+                d = lambda: g.enc_set(good[0].tid, g.rand_record(good[0])[0])
+                toks += [hx(a0), hx(g.enc_msg([d(), g.enc_set(701, bytes(rng.randrange(256) for _ in range(12))), d()]))]
         a = rand_addr(rng)
         t, o = g.rand_tpl(tid=rng.choice([256, 700]), allow_var=False)
         while g.min_rec_len(t) <= 4:
@@ -81,6 +86,11 @@ class P:
                 t, o = g.rand_tpl(tid=rng.choice([256, 257, 300, 65535]), allow_var=(rng.random() < 0.3))
                 tpls.setdefault(a, []).append(t)
                 toks += [hx(a), hx(g.enc_msg([g.enc_set(g.tpl_set_id(o), g.enc_tpl(t, o))]))]
+        if tpls and rng.random() < 0.5:
+            # data for an id this exporter never announced, seen BEFORE the save (whatever the collector notes about it must not come
+            # back from the file as a template); the history after the load has the same id between decodable sets
+            a0 = next(iter(tpls))
+            toks += [hx(a0), hx(g.enc_msg([g.enc_set(701, bytes(rng.randrange(256) for _ in range(rng.choice([8, 12, 20]))))]))]
         # keep the LAST definition per (addr, tid)
         for a in tpls:
             last = {}
@@ -201,10 +211,12 @@ class P:
             # a LARGE reachable cache (1000 templates of 20 fields from one exporter: a file of well over a megabyte): the restart
             # is as transparent as with a small one (a file read through a limit or a fixed buffer comes back as a prefix)
             a = rand_addr(rng)
-            fat = [Tpl(256 + i, [], [(1 + (i + j) % 30, 0, 4) for j in range(20)]) for i in range(1000)]
+            # (when an obligation of this property is broken - failing-input search - the cache is six times as large: a file of ~8 MB)
+            nfat = 6000 if getattr(self, "broken", None) else 1000
+            fat = [Tpl(256 + i, [], [(1 + (i + j) % 30, 0, 4) for j in range(20)]) for i in range(nfat)]
             s = " ".join("%s %s" % (hx(a), hx(g.enc_msg([g.enc_set(g.tpl_set_id(False), b"".join(g.enc_tpl(t, False) for t in fat[k:k + 50]))])))
-                         for k in range(0, 1000, 50))
-            out.append("cachert %s FULL S %s H %s" % (proto, s, self.hist(g, rng, proto, {a: [fat[0], fat[999], fat[500]]}, force=True)))
+                         for k in range(0, nfat, 50))
+            out.append("cachert %s FULL S %s H %s" % (proto, s, self.hist(g, rng, proto, {a: [fat[0], fat[nfat - 1], fat[500]]}, force=True)))
             n = budget // 2
             for i in range(n):
                 k = i % 10
